@@ -32,6 +32,10 @@ pub fn run(o: &Opts) -> Report {
         let early_tail = !use_last && cv.pos.len() >= 2 && rng.chance(1, 3);
         if early_tail { for &i in cv.pos.iter() { cv.cmd.args[i].delim = None; } }
         if rng.chance(1, 2) { cv.cmd.subs.push(CmdS { name: "sub1".into(), args: vec![ArgS { id: "x".into(), long: Some("xx".into()), action: Some("setTrue"), ..Default::default() }], ..Default::default() }); cv.cmd.settings.infer_subcommands = rng.chance(1, 3); }
+        // `dont_delimit_trailing_values` concerns values after `--` only; an option that stands right before the `--` without
+        // a value gets its `default_missing_value`, split at the option's delimiter like any other value
+        if rng.chance(1, 3) { cv.cmd.settings.dont_delimit_trailing_values = true; }
+        for &i in cv.opts.iter() { let a = &mut cv.cmd.args[i]; if let (Some(d), false) = (a.delim, a.default_missing.is_empty()) { if rng.chance(2, 3) { a.default_missing = vec![format!("dm1{d}dm2")]; } } }
         if !real_valid(&cv.cmd) { rep.count("invalid_definition(skipped)"); continue; }
         done += 1;
         for _ in 0..10 {
